@@ -21,6 +21,7 @@ import (
 	"sort"
 	"strings"
 	"sync"
+	"time"
 
 	"github.com/grafana/cog/verifx/genrun"
 	"github.com/grafana/cog/verifx/gschema"
@@ -328,6 +329,7 @@ func main() {
 		schemas = pick[:1]
 		fmt.Println("replaying", witness)
 	}
+	t0 := time.Now()
 	ws := genrun.NewWorkspace("c08")
 	defer ws.Close()
 	prep, err := genrun.PrepareGo(ws, schemas, func(u *genrun.Unit) {
@@ -339,6 +341,8 @@ func main() {
 	}
 	defer prep.Driver.Close()
 
+	tPrep := time.Since(t0)
+	t0 = time.Now()
 	// document sets + reference verdicts, one goroutine per schema (each
 	// schema owns its validators)
 	plans := make([]*schemaPlan, len(schemas))
@@ -360,6 +364,8 @@ func main() {
 		close(ch)
 		wg.Wait()
 	}
+	tPlan := time.Since(t0)
+	t0 = time.Now()
 	var disagreements []string
 	crossChecked, excluded, bases := 0, 0, 0
 	opCounts := map[string]int{}
@@ -498,6 +504,7 @@ func main() {
 		return out
 	}
 	skipped := sorted(prep.Skipped)
+	fmt.Printf("phases: generate+compile+link=%.0fs documents+evaluator+validators=%.0fs execute+judge=%.0fs\n", tPrep.Seconds(), tPlan.Seconds(), time.Since(t0).Seconds())
 	prep.Driver.Close()
 	ws.Close()
 	if r.Replay != "" {
